@@ -38,6 +38,10 @@ def createCommand (wd : Option Str) (env : List (Str × Str)) (cmd : Str) : Str 
   (match wd with | some w => render cc_cd [w] | none => []) ++
   (env.map (fun kv => render cc_export [kv.1, kv.2])).flatten ++ cmd
 
+/-- `create_command(...)` with the default redirections (`stderr == stdout`: ` 2>&1` is appended) -/
+def createCommandDefault (wd : Option Str) (env : List (Str × Str)) (cmd : Str) : Str :=
+  createCommand wd env (cmd ++ cc_merge)
+
 /-- the `streamflow_environment` value `CommandTemplateMap.get_command` passes to the jinja template -/
 def getCommandEnv (env : List (Str × Str)) : Str := joinSep gc_sep (env.map (fun kv => render gc_export [kv.1, kv.2]))
 
